@@ -401,7 +401,7 @@ def main(prop, tier, seed=None, nshards=None):
         samples = [f["case"] for f in fails.values()][:3]
     cov = {"evaluations": evals, "distinct_nontrivial": len(nt),
            "rule": mod.RULE, "samples": samples,
-           "distribution": dict(labels.most_common(60)),
+           "distribution": dict(labels.most_common(200)),
            "inconclusive": incon, "skipped_after_time_budget": skipped,
            "known_findings_hit": [
                {"signature": kf["signature"], "count": f["count"]}
